@@ -124,7 +124,7 @@ def refuted_now_note(ctx):
     f = core.TMP / "RefutedNow.v"
     f.write_text("From Coq Require Import String List.\nFrom TE Require Import Props.C18.\nOpen Scope string_scope.\nEval vm_compute in C18.refuted_now.\n")
     r = core.sh(f"timeout 120 coqc -Q {core.COQ} TE {f}", cwd=core.TMP, timeout=150)
-    pairs = re.findall(r'\("([^"]+)",\s*(true|false)\)', r.stdout)
+    pairs = re.findall(r'"(_[a-z0-9_]+)",\s*(true|false)', r.stdout)
     if pairs:
         ctx.notes.append("check-level non-equivalences on this tree: " + ", ".join(n for n, b in pairs if b == "true")
                          + " | repaired (equivalence proved instead): " + (", ".join(n for n, b in pairs if b == "false") or "none"))
